@@ -247,10 +247,10 @@ def canonical_name(k: str, config: dict) -> str:
         # config is not a mapping, return the same name as provided
         return k
 
-    altk = k.replace("_", "-") if "_" in k else k.replace("-", "_")
-
-    if altk in config:
-        return altk
+    normalized = k.replace("-", "_")
+    for existing in config:
+        if isinstance(existing, str) and existing.replace("-", "_") == normalized:
+            return existing
 
     return k
 
